@@ -15,6 +15,12 @@
 #ifndef TAB_CAP
 #define TAB_CAP 4
 #endif
+#ifndef TAB_SIZE_MIN          /* the rehash units cover the new sizes [TAB_SIZE_MIN, TAB_SIZE_MAX] */
+#define TAB_SIZE_MIN 1
+#endif
+#ifndef TAB_SIZE_MAX
+#define TAB_SIZE_MAX TAB_NEWMAX
+#endif
 #ifndef TAB_RH_NOLOAD         /* 1: janet_table_rehash is proved / used without the load clause in its precondition */
 #define TAB_RH_NOLOAD 0
 #endif
@@ -135,14 +141,14 @@ static void tab_put_case(int32_t count, int32_t deleted, int rehashing) {
   } else {
     __CPROVER_assert(new_g.u64 == (g == k ? value.u64 : old_g.u64), "C04 put: view' = view[key -> value], other keys unchanged");
     __CPROVER_assert(t->count == oc + !present, "C04 put: length grows by one exactly for a new key");
-    __CPROVER_assert(t->capacity >= TAB_CAP, "C04 put: capacity never shrinks");
     if (present) __CPROVER_assert(t->data == odata && t->capacity == TAB_CAP && t->deleted == od && g_rh_calls == 0, "C04 put: overwriting a present key does not rehash");
   }
   REACH("put returns");
-  if (rehashing) {
-    REACH("put inserts a new key after rehash");
-    __CPROVER_assert(g_rh_calls == 1, "C04 put: a new key at the load limit rehashes once");
-  } else {
+#ifdef TAB_PUT_COUNT
+  REACH("put inserts a new key after rehash");
+  __CPROVER_assert(g_rh_calls == 1, "C04 put: a new key at the load limit rehashes once");
+#else
+  {
 #if TAB_CAP >= 2
     if (k != 0 && !isnil && !present) REACH("put inserts a new key without rehash");
     if (k != 0 && !isnil && present) REACH("put overwrites a present key");
@@ -152,6 +158,7 @@ static void tab_put_case(int32_t count, int32_t deleted, int rehashing) {
     /* (a put never lands on a tombstone: under the load clause an EMPTY bucket ends every probe first, so the
      *  `--t->deleted` of janet_table_put is unreachable from well-formed tables) */
   }
+#endif
 }
 /* Unit split (all cases together = every well-formed table and every argument):
  *   TAB_PUT_COUNT undefined : every call that does not rehash (the rehash replacement asserts that it is not reached):
@@ -310,8 +317,12 @@ static void tab_rehash_case(JanetTable *t, int32_t size, int g, JanetTable *dang
   __CPROVER_assert(tab_lookup(t->data, size, g).u64 == old_g.u64, "C04 rehash preserves the view: every key maps to the same value");
   __CPROVER_assert(t->proto == dang, "C04 rehash: prototype untouched");
   REACH("rehash returns");
+#if TAB_SIZE_MAX > TAB_CAP && TAB_CAP >= 4
   if (od > 0 && oc > 0 && size > TAB_CAP) REACH("rehash grows a table with tombstones");
+#endif
+#if TAB_SIZE_MIN < TAB_CAP && TAB_CAP >= 4
   if (oc > 1 && size < TAB_CAP) REACH("rehash shrinks a table");
+#endif
 }
 void h_table_rehash(void) {
   tab_init();
@@ -322,7 +333,7 @@ void h_table_rehash(void) {
 #endif
   __CPROVER_assume(tab_wf_table(t, TAB_RH_NOLOAD));                /* requires wf_table (TAB_RH_NOLOAD: without the load clause) */
   int32_t size = nd_i32();
-  __CPROVER_assume(tab_pow2(size) && size >= t->count && size <= TAB_NEWMAX);
+  __CPROVER_assume(tab_pow2(size) && size >= t->count && size >= TAB_SIZE_MIN && size <= TAB_SIZE_MAX);
   GHOST(g);
   if (size == 1) tab_rehash_case(t, 1, g, dang);
   else if (size == 2) tab_rehash_case(t, 2, g, dang);
